@@ -93,7 +93,7 @@ macro_rules! jumble_bijection {
 
 //@ {"p":"C10","tier":"quick","clause":"f4jumble_inv(f4jumble(m)) == m and f4jumble(f4jumble_inv(m)) == m, same length, for every message of length 48 (left 24 / right 24, one G block)","bounds":"all messages of length 48","assume":"stub: blake2b_simd::Params::{hash_length,personal,hash} replaced by a deterministic mixing function (hash abstraction; Feistel invertibility does not depend on the round function)","covers":2,"t":1800,"stub":true,"replay":"model","unwindset":{"f4jumble::xor.0":66,"blake2b_simd::Params::hash.0":18,"blake2b_simd::Params::hash.1":196,"blake2b_simd::Params::hash.2":66,"g_round.0":5}}
 jumble_bijection!(c10_jumble_48, 48, true);
-//@ {"p":"C10","tier":"quick","clause":"(direction jumble(inv(m))) f4jumble_inv(f4jumble(m)) == m and f4jumble(f4jumble_inv(m)) == m, same length, for every message of length 48 (left 24 / right 24, one G block)","bounds":"all messages of length 48","assume":"stub: blake2b_simd::Params::{hash_length,personal,hash} replaced by a deterministic mixing function (hash abstraction; Feistel invertibility does not depend on the round function)","covers":2,"t":1800,"stub":true,"replay":"model","unwindset":{"f4jumble::xor.0":66,"blake2b_simd::Params::hash.0":18,"blake2b_simd::Params::hash.1":196,"blake2b_simd::Params::hash.2":66,"g_round.0":5}}
+//@ {"p":"C10","tier":"thorough","why_thorough":"on a finite domain inv(jumble(m)) == m for all m already implies jumble(inv(m)) == m; kept for the thorough tier so that the quick check stays well under 900 s","clause":"(direction jumble(inv(m))) f4jumble_inv(f4jumble(m)) == m and f4jumble(f4jumble_inv(m)) == m, same length, for every message of length 48 (left 24 / right 24, one G block)","bounds":"all messages of length 48","assume":"stub: blake2b_simd::Params::{hash_length,personal,hash} replaced by a deterministic mixing function (hash abstraction; Feistel invertibility does not depend on the round function)","covers":2,"t":1800,"stub":true,"replay":"model","unwindset":{"f4jumble::xor.0":66,"blake2b_simd::Params::hash.0":18,"blake2b_simd::Params::hash.1":196,"blake2b_simd::Params::hash.2":66,"g_round.0":5}}
 jumble_bijection!(c10_jumble_48_inv, 48, false);
 //@ {"p":"C10","tier":"experimental","why_experimental":"11.8 M variables (129) / larger (193): out of memory at 14 GB, timeout 3000 s at 26 GB","clause":"same, length 129 (left saturates at 64, right 65: two G blocks, the second a 1-byte tail)","bounds":"all messages of length 129","assume":"stub: BLAKE2b abstracted","covers":2,"t":1200,"stub":true,"replay":"model","unwindset":{"f4jumble::xor.0":66,"blake2b_simd::Params::hash.0":18,"blake2b_simd::Params::hash.1":196,"blake2b_simd::Params::hash.2":66,"g_round.0":5}}
 jumble_bijection!(c10_jumble_129, 129, true);
